@@ -31,6 +31,9 @@ let () =
     match o with
     | [out; ncalls; size; e] ->
       let out = bytes_of_hex out in
+      add_coq_case (fun () -> Printf.sprintf "Bool.eqb (c01_enc_monitor (mkHeader %s %s %s %s %s %s) %s %s) %s"
+        (cq_bool h.h_fin) (cq_n h.h_rsv) (cq_n h.h_op) (cq_bool h.h_masked) (cq_bytes h.h_mask) (cq_z h.h_len)
+        (cq_bytes out) (cq_z (z_of_int (int_of_string size))) (cq_bool (c01_enc_monitor h out (z_of_int (int_of_string size)))));
       if not (wf_headerb h) then Diff "generator produced a header outside the domain"
       else if e <> "ok" then Viol "encoder refused a header of the domain"
       else if not (c01_enc_monitor h out (z_of_int (int_of_string size))) then Viol "encoded bytes or reported size differ from the RFC layout"
